@@ -33,10 +33,17 @@ def install(r):
     def _timedelta(I, a, k):
         # durations are integers (an abstract number of time units); only non-negativity of sums matters
         f = z3.Function("timedelta", z3.IntSort(), z3.IntSort())
+        # value = integer milliseconds; positional order and keyword names as in datetime.timedelta
+        unit_ms = {"days": 86400000, "seconds": 1000, "microseconds": None, "milliseconds": 1, "minutes": 60000, "hours": 3600000, "weeks": 604800000}
+        names = ["days", "seconds", "microseconds", "milliseconds", "minutes", "hours", "weeks"]
+        parts = list(zip(names, a)) + list(k.items())
         tot = z3.IntVal(0)
-        for v in list(a) + list(k.values()):
+        for nm, v in parts:
             try:
-                tot = tot + z3.ToInt(I.ops.as_real(v) * 1000)
+                if unit_ms.get(nm) is None:
+                    tot = tot + z3.ToInt(I.ops.as_real(v) / 1000)
+                else:
+                    tot = tot + z3.ToInt(I.ops.as_real(v) * unit_ms[nm])
             except Exception:
                 tot = tot + fresh_int("td")
         return SInt(tot)
